@@ -61,6 +61,15 @@ def one_call(ctx, fn, names, what=None):
     return c
 
 
+def need_call(ctx, rule, instance, fn, names, what):
+    """The call itself is the obligation: its absence is a violation of the
+    rule (not a vanished anchor)."""
+    c = find_calls(fn, names)
+    if not c:
+        ctx.bad(rule, instance, fn.name, fn.loc, "%s: %s no longer calls %s" % (what, fn.name, names))
+    return c
+
+
 def stores_to_field(fn, field, struct=None):
     """asg/inc events whose lvalue is a member named `field`."""
     out = []
@@ -513,3 +522,112 @@ def cmp_edge(cond, pol, lhs_key, op, value):
             if ha == lhs_key and _num(hb) is not None and _const_implies(ho, _num(hb), op, value):
                 return True
     return False
+
+
+def iteration_equiv(ctx, rule, instance, fn, reset, target, flag_edges, exec_ok, skip_ok, what, P=None):
+    """Equivalence of a guard (both directions), for one loop iteration that
+    starts at an event matching `reset`:
+      - the target event executes only with exec_ok(flags),
+      - an iteration that ends (next reset / function exit) without the
+        target has skip_ok(flags),
+    where flags = names of flag_edges {name: pred(cond, pol)} crossed since
+    the reset.  Edges are matched by implication over identical operands."""
+    names = sorted(flag_edges)
+
+    def step(q, e, st, b, i):
+        if q == BAD:
+            return q
+        started, done, flags = q
+        if reset(e):
+            if started and not done and not skip_ok(flags):
+                return BAD
+            return (True, False, frozenset())
+        if started and target(e):
+            if not exec_ok(flags):
+                return BAD
+            return (True, True, flags)
+        if e["e"] == "ret" and started and not done and not skip_ok(flags):
+            return BAD
+        return q
+
+    def edge(q, lit):
+        if q == BAD or lit is None or lit[0] in ("case", "default"):
+            if q != BAD and lit is not None and lit[0] == "case":
+                started, done, flags = q
+                add = {n for n in names if flag_edges[n](("case", lit[1], lit[2]), True)}
+                return (started, done, frozenset(flags | add))
+            return q
+        started, done, flags = q
+        add = {n for n in names if flag_edges[n](lit[0], lit[1])}
+        if add:
+            return (started, done, frozenset(flags | add))
+        return q
+    return check_automaton(ctx, rule, instance, fn, (False, False, frozenset()), step, edge, what, P)
+
+
+def rel_edge(cond, pol, op, a, b):
+    """Does the edge establish `a op b` (operands by key; ints allowed)?"""
+    from .paths import norm_literal, atom_implies, ckey
+    if isinstance(cond, tuple) and cond[0] == "case":
+        atoms = [("==", ckey(cond[1]), ckey(cond[2]))]
+    else:
+        atoms = norm_literal(cond, pol)
+    want = (op, str(a), str(b))
+    return any(atom_implies(h, want) for h in atoms)
+
+
+# --------------------------------------------------------------------------
+# T8: ordering analysis of comparator-like expressions
+# --------------------------------------------------------------------------
+
+class Unsupported(Exception):
+    pass
+
+
+def eval_sign(t, a_key, b_key, ordering):
+    """Abstractly evaluates integer expression tree t where the only unknowns
+    are comparisons between operands keyed a_key and b_key; `ordering` is
+    '<', '=' or '>' (relation a ? b).  Returns an int.  Anything else raises
+    Unsupported (-> analysis broken, never a guess)."""
+    t = strip_casts(t)
+    if not isinstance(t, dict):
+        raise Unsupported("non-tree")
+    c = const_val(t)
+    k = t.get("k")
+    if k == "int" and c is not None:
+        return c
+    if k == "cond":
+        return eval_sign(t["a"] if eval_sign(t["c"], a_key, b_key, ordering) else t["b"], a_key, b_key, ordering)
+    if k == "un" and t["op"] == "-":
+        return -eval_sign(t["x"], a_key, b_key, ordering)
+    if k == "un" and t["op"] == "!":
+        return 0 if eval_sign(t["x"], a_key, b_key, ordering) else 1
+    if k == "bin":
+        op = t["op"]
+        if op in ("<", ">", "<=", ">=", "==", "!="):
+            lk, rk = key(t["l"]), key(t["r"])
+            if {lk, rk} == {a_key, b_key} and lk != rk:
+                rel = ordering if lk == a_key else {"<": ">", ">": "<", "=": "="}[ordering]
+                return int({"<": rel == "<", ">": rel == ">", "<=": rel in "<=", ">=": rel in ">=",
+                            "==": rel == "=", "!=": rel != "="}[op])
+            l = eval_sign(t["l"], a_key, b_key, ordering)
+            r = eval_sign(t["r"], a_key, b_key, ordering)
+            return int({"<": l < r, ">": l > r, "<=": l <= r, ">=": l >= r, "==": l == r, "!=": l != r}[op])
+        l = eval_sign(t["l"], a_key, b_key, ordering)
+        r = eval_sign(t["r"], a_key, b_key, ordering)
+        if op == "+":
+            return l + r
+        if op == "-":
+            return l - r
+        if op == "&&":
+            return int(bool(l) and bool(r))
+        if op == "||":
+            return int(bool(l) or bool(r))
+    if c is not None and not vars_in(t) and not fields_in(t):
+        return c
+    raise Unsupported("unsupported construct %s in comparator expression" % show(t))
+
+
+def sign_triple(t, a_key, b_key):
+    sg = lambda v: (v > 0) - (v < 0)
+    return tuple(sg(eval_sign(t, a_key, b_key, o)) for o in ("<", "=", ">"))
